@@ -103,8 +103,19 @@ fn gen_proj(t: &mut Tape) -> Proj {
         let k = t.below(4);
         for _ in 0..k {
             let from_dir = dir_of(&files[i].rel).to_string();
-            let spelled = match t.below(12) {
+            let spelled = match t.below(13) {
                 0 => "nope.circom".to_string(),
+                12 => {
+                    // a dot-relative spelling of the bare name of some file: resolves only if that file
+                    // happens to sit there (such spellings never go through the libraries)
+                    let j = t.below(n);
+                    let bare = files[j].rel.rsplit('/').next().unwrap_or("").to_string();
+                    if t.chance(128) {
+                        format!("../{bare}")
+                    } else {
+                        format!("./{bare}")
+                    }
+                }
                 1 if !symlinks.is_empty() => relpath(&from_dir, &symlinks[0].0),
                 _ => {
                     let j = t.below(n); // may be i itself (self include)
